@@ -29,6 +29,9 @@ pub enum Ev {
     /// Enter Tab BackTab Left Right Up Down Home End Backspace Delete Esc Insert PageUp PageDown Null
     Key(String),
     F(u8),
+    /// an editing key or character with modifier keys held (bit 0 SHIFT, bit 1 CONTROL, bit 2 ALT):
+    /// exercised for crash freedom, its effect is not judged
+    Mod(String, u8),
     Mouse,
     ResizeEvent(u16, u16),
     /// the terminal window changes size (new TestBackend)
@@ -391,7 +394,7 @@ fn sandbox() -> &'static std::path::PathBuf {
     })
 }
 
-pub const LOAD_TARGETS: [&str; 19] = ["nosp.asm", "count.asm", "prog-ä.asm", "prog-ö.asm", "dac.asm", "umlaut-lines.asm", "verybad.asm", "progs/sub/a-rather-long-file-name-for-the-info-pane-of-the-sidebar.asm", "long.asm", "good.asm", "progs/a.asm", "progs/b.asm", "progs/sub/c.asm", "with space.asm", "ümlaut.asm", "bad.asm", "nonutf8.asm", "missing.asm", "progs"];
+pub const LOAD_TARGETS: [&str; 23] = ["~", "~é", "~/good.asm", "~nobody/x.asm", "nosp.asm", "count.asm", "prog-ä.asm", "prog-ö.asm", "dac.asm", "umlaut-lines.asm", "verybad.asm", "progs/sub/a-rather-long-file-name-for-the-info-pane-of-the-sidebar.asm", "long.asm", "good.asm", "progs/a.asm", "progs/b.asm", "progs/sub/c.asm", "with space.asm", "ümlaut.asm", "bad.asm", "nonutf8.asm", "missing.asm", "progs"];
 
 fn key_of(name: &str) -> Option<KeyCode> {
     Some(match name {
@@ -620,6 +623,20 @@ fn run(scn: &Scn, ctx: &mut Ctx) -> Result<(), Violation> {
             Ev::Ctrl(c) => Some(Event::Key(KeyEvent { code: KeyCode::Char(*c), modifiers: KeyModifiers::CONTROL })),
             Ev::Key(k) => key_of(k).map(|code| Event::Key(KeyEvent { code, modifiers: KeyModifiers::empty() })),
             Ev::F(n) => Some(Event::Key(KeyEvent { code: KeyCode::F(*n), modifiers: KeyModifiers::empty() })),
+            Ev::Mod(k, bits) => {
+                let mut mods = KeyModifiers::empty();
+                if bits & 1 != 0 {
+                    mods |= KeyModifiers::SHIFT;
+                }
+                if bits & 2 != 0 {
+                    mods |= KeyModifiers::CONTROL;
+                }
+                if bits & 4 != 0 {
+                    mods |= KeyModifiers::ALT;
+                }
+                let code = if k.chars().count() == 1 { Some(KeyCode::Char(k.chars().next().unwrap())) } else { key_of(k) };
+                code.map(|code| Event::Key(KeyEvent { code, modifiers: mods }))
+            }
             Ev::Mouse => Some(Event::Mouse(MouseEvent::Down(MouseButton::Left, 3, 3, KeyModifiers::empty()))),
             Ev::ResizeEvent(w, h) => Some(Event::Resize(*w, *h)),
             Ev::Resize(w, h) => {
@@ -657,6 +674,7 @@ fn run(scn: &Scn, ctx: &mut Ctx) -> Result<(), Violation> {
             Ev::Ctrl(_) => "KEY-CTRL",
             Ev::Key(_) => "KEY-EDIT",
             Ev::F(_) => "KEY-UNKNOWN",
+            Ev::Mod(..) => "KEY-WITH-MODIFIERS",
             Ev::Mouse => "MOUSE",
             Ev::ResizeEvent(..) => "RESIZE-EVENT",
             _ => "OTHER",
@@ -670,6 +688,7 @@ fn run(scn: &Scn, ctx: &mut Ctx) -> Result<(), Violation> {
                 Ev::Ctrl(c) => 10 + (*c as u64 % 16),
                 Ev::Key(k) => 30 + k.len() as u64 * 7 + k.as_bytes()[0] as u64,
                 Ev::F(_) => 3,
+                Ev::Mod(_, b) => 40 + *b as u64,
                 _ => 4,
             };
             ctx.cov.distinct(mix(est, kind));
@@ -745,7 +764,10 @@ fn run(scn: &Scn, ctx: &mut Ctx) -> Result<(), Violation> {
         let mut expect_part = part_before;
         let mut expect_auto = auto_before;
         let mut checked = true;
-        if notif_before && matches!(e, Ev::Char(_) | Ev::Ctrl(_) | Ev::Key(_) | Ev::F(_)) {
+        if matches!(e, Ev::Mod(..)) {
+            // modifier combinations have no documented meaning: crash freedom only
+            checked = false;
+        } else if notif_before && matches!(e, Ev::Char(_) | Ev::Ctrl(_) | Ev::Key(_) | Ev::F(_)) {
             // a shown notification swallows the next key (tree behaviour the properties do not mention): not judged
             checked = false;
         } else {
@@ -1132,7 +1154,7 @@ impl Check for C17 {
         }
         if fam_idx == 2 || (tier == Tier::Thorough && fam_idx % 20_000 == 2) {
             // a very long line: a zero-padded value of several thousand digits
-            let zeros = 4_000 + rng.usize(400);
+            let zeros = 4_200 + rng.usize(1_200);
             let line = format!("{} = {}{}", rng.pick(&["FC", "FD", "FE", "FF"]), "0".repeat(zeros), 1 + rng.below(255));
             let events = vec![Ev::Line(line), Ev::Key("Up".into()), Ev::Key("Home".into()), Ev::Key("End".into()), Ev::Key("Enter".into())];
             return Scn { w: 100, h: 40, preload: false, autorun: 0, events, init: [0; 6] };
@@ -1200,7 +1222,16 @@ impl Check for C17 {
                     Ev::Resize(w, h)
                 }
                 18 => Ev::Key(rng.pick(&["Esc", "Insert", "PageUp", "PageDown", "Null"]).to_string()),
-                19 => Ev::F(1 + rng.below(12) as u8),
+                19 => {
+                    if rng.bool() {
+                        Ev::F(1 + rng.below(12) as u8)
+                    } else {
+                        let k = *rng.pick(&["Left", "Right", "Up", "Down", "Home", "End", "Backspace", "Delete", "Tab", "BackTab", "b", "f", "x", "é"]);
+                        // never CONTROL alone with a letter (those are the documented chords)
+                        let bits = *rng.pick(&[1u8, 4, 5, 3, 6, 7, 1, 4]);
+                        Ev::Mod(k.to_string(), bits)
+                    }
+                }
                 20 => {
                     if rng.bool() {
                         Ev::Mouse
